@@ -223,14 +223,18 @@ def gen_world(rng, tier="quick"):
     return world, dirs
 
 
-def _root_spellings(cwd, dirs, git):
+def _root_spellings(cwd, dirs, git, rn="p"):
+    return [o if o is None else o.replace("\0", rn) for o in _root_spellings0(cwd, dirs, git)]
+
+
+def _root_spellings0(cwd, dirs, git):
     real_dirs = [d for d in dirs if d]
     if cwd == ".":
-        opts = [None, ".", "./", "$ROOT", "$ROOT/", "../p"] + [f"{d}/" + "/".join([".."] * (d.count("/") + 1)) for d in real_dirs[:2]]
+        opts = [None, ".", "./", "$ROOT", "$ROOT/", "../\0"] + [f"{d}/" + "/".join([".."] * (d.count("/") + 1)) for d in real_dirs[:2]]
     elif cwd == "..":
-        opts = ["p", "./p", "p/", "$ROOT"] + [f"p/{d}/" + "/".join([".."] * (d.count("/") + 1)) for d in real_dirs[:1]]
+        opts = ["\0", "./\0", "\0/", "$ROOT"] + [f"\0/{d}/" + "/".join([".."] * (d.count("/") + 1)) for d in real_dirs[:1]]
     elif cwd == "../s":
-        opts = ["../p", "$ROOT", "../s/../p"]
+        opts = ["../\0", "$ROOT", "../s/../\0"]
     else:
         up = "/".join([".."] * (cwd.count("/") + 1))
         opts = [up, up + "/", "$ROOT", f"{up}/{cwd}/{up}"] + ([None] if git else [])
@@ -241,6 +245,10 @@ def gen_case(seed, tier, index=0):
     rng = Rng(seed, "c14")
     world, dirs = gen_world(rng, tier)
     git = bool(world.get("git"))
+    # the name of the root directory itself is part of the environment, not of the project's contents
+    rn = rng.wpick([(12, "p"), (2, "subprojects"), (1, "LICENSES"), (1, ".reuse"), (1, "a b"), (1, "x.license"), (1, "LICENSE")])
+    if rn != "p":
+        world["root_name"] = rn
     ncmd = rng.randint(2, 3)
     cmds = [COMMANDS[0]] + rng.sample(COMMANDS[1:], ncmd - 1)
     nvar = TIERS[tier]["variants"]
@@ -249,7 +257,7 @@ def gen_case(seed, tier, index=0):
     for v in range(nvar):
         base = v == 0
         cwd = "." if base else rng.wpick([(4, "."), (2, ".."), (1, "../s")] + [(2, d) for d in dirs if d and d != "LICENSES"][:3])
-        spelling = None if base else rng.pick(_root_spellings(cwd, dirs, git))
+        spelling = None if base else rng.pick(_root_spellings(cwd, dirs, git, rn))
         serial = base or rng.chance(0.3)
         env = {"cwd": cwd}
         if not base:
@@ -280,14 +288,14 @@ def gen_case(seed, tier, index=0):
 
 
 # ---- normalisation ------------------------------------------------------------------------
-def _canon_path(p, cwd, world_paths):
+def _canon_path(p, cwd, world_paths, rn="p"):
     """The file a reported path denotes, as a root-relative posix path."""
     if not isinstance(p, str):
         return p
     p = p.replace("$B/", "/B/")
-    cwd_abs = posixpath.normpath(posixpath.join("/B/p", cwd))
+    cwd_abs = posixpath.normpath(posixpath.join("/B/" + rn, cwd))
     a = posixpath.normpath(posixpath.join(cwd_abs, p))
-    rel = posixpath.relpath(a, "/B/p")
+    rel = posixpath.relpath(a, "/B/" + rn)
     if rel in world_paths or cwd == ".":
         return rel
     r2 = posixpath.normpath(p)
@@ -296,14 +304,14 @@ def _canon_path(p, cwd, world_paths):
     return rel
 
 
-def normalise(cmd, rec, cwd, world_paths):
+def normalise(cmd, rec, cwd, world_paths, rn="p"):
     if rec.get("exc"):
         return {"exception": rec["exc"]["type"]}
     if rec.get("timeout"):
         return {"timeout": True}
     out = {"exit": rec.get("exit")}
     so = rec.get("stdout", "")
-    cp = lambda p: _canon_path(p, cwd, world_paths)  # noqa: E731
+    cp = lambda p: _canon_path(p, cwd, world_paths, rn)  # noqa: E731
     if cmd[:2] == ["lint", "--json"]:
         try:
             d = json.loads(so)
@@ -369,20 +377,23 @@ def oracle(case, results):
     nsteps = min(len(v["steps"]) for v in case["variants"])
     for si in range(nsteps):
         cmd0 = _cmd_of(base_var["steps"][si]["argv"])
-        n0 = normalise(cmd0, base_res["records"][si], base_var["steps"][si].get("cwd", "."), world_paths)
+        rn = case["world"].get("root_name", "p")
+        n0 = normalise(cmd0, base_res["records"][si], base_var["steps"][si].get("cwd", "."), world_paths, rn)
         for vi in range(1, len(case["variants"])):
             var = case["variants"][vi]
             st = var["steps"][si]
             cmd = _cmd_of(st["argv"])
             if cmd != cmd0:
                 continue
-            n1 = normalise(cmd, results[vi]["records"][si], st.get("cwd", "."), world_paths)
+            n1 = normalise(cmd, results[vi]["records"][si], st.get("cwd", "."), world_paths, rn)
             d = first_difference(n0, n1)
             if d:
                 field = d.split(".")[0]
                 axes = _axes(base_var, var, si)
                 fidelity = bool(st.get("real_pool"))
                 sig = f"C14/differs/{' '.join(cmd[:2])}/{field}" + ("/REAL-POOL-FIDELITY" if fidelity else "")
+                if rn != "p":
+                    sig += f"/root-directory-named-{rn}"
                 vs.append({"sig": sig, "detail": f"variant 0 vs {vi} differ at {d}; differing axes: {axes}\n"
                            f"  v0: {json.dumps(_dig(n0, d))[:500]}\n  v{vi}: {json.dumps(_dig(n1, d))[:500]}"})
                 break
